@@ -46,3 +46,4 @@ int comp_synth();
 int comp_audio();
 int comp_api();
 int comp_iso();
+int comp_front();
